@@ -121,61 +121,57 @@ Proof. vm_compute. reflexivity. Qed.
 (* ============================ access-log lines ============================================== *)
 
 (* One line per entry of every matching rule: for every rule table, request path, handler script
-   that returns (whatever it wrote, whatever status it returned) and every writer behaviour, the
-   middleware writes exactly one line for each entry of each rule whose scope contains the path
-   and which does not except it, none for the others, and all lines carry the same status and
-   size. *)
+   (whatever it wrote, whatever status it returned, panics included) and every writer
+   behaviour, the middleware writes exactly one line for each entry of each rule whose scope
+   contains the path and which does not except it, none for the others, and all lines carry the
+   same status and size; a panic of the handler gets past the middleware only when the request
+   is outside every scope. *)
 Theorem C20_one_line_per_entry :
   forall c cs tbl ek rules path ops ret u,
-  no_panic ops = true ->
   NoDup (map n_id (flat_map ru_entries rules)) ->
   let '(_, _, p, lines) := log_serve c cs tbl ek rules path ops ret u in
-  p = false /\
   (forall r e, In r rules -> In e (ru_entries r) ->
      count_id (n_id e) lines =
      if path_matches cs path (ru_scope r) && should_log cs (n_except e) path then 1%nat else 0%nat) /\
   (forall i, ~ In i (map n_id (flat_map ru_entries rules)) -> count_id i lines = 0%nat) /\
-  (exists st sz, forall l, In l lines -> snd (fst l) = st /\ snd l = sz).
+  (exists st sz, forall l, In l lines -> snd (fst l) = st /\ snd l = sz) /\
+  (p = true -> forall r, In r rules -> path_matches cs path (ru_scope r) = false).
 Proof. exact one_line_per_entry. Qed.
 Print Assumptions C20_one_line_per_entry.
 
 (* Per configured log (the statement of the property): [counts_ok] = every log directive gets
    exactly one line iff the request is inside its scope and not excepted by its own except
    list.  It holds for EVERY list of log directives — same or different scopes, nested or
-   overlapping, any except lists (F-C20-3 and F-C20-4 repaired) — for every request, every
-   handler outcome when an errors directive is present (panics included), every returning
-   handler otherwise. *)
-Theorem C20_one_line_per_log_partial :
+   overlapping, any except lists — for every request and EVERY handler outcome, with or without
+   an errors directive: a panicking handler included (the log middleware turns the panic into
+   the 500 the client is answered with).  F-C20-1, F-C20-3 and F-C20-4 repaired. *)
+Theorem C20_one_line_per_log :
   forall c cs tbl (haserr hdrw : bool) ds path ops ret,
-  (haserr = true \/ no_panic ops = true) ->
   counts_ok cs ds 0 path (snd (site_serve c cs tbl haserr hdrw ds path ops ret)) = true.
-Proof. exact site_one_line_per_log_partial. Qed.
-Print Assumptions C20_one_line_per_log_partial.
+Proof. exact site_one_line_per_log. Qed.
+Print Assumptions C20_one_line_per_log.
 
-(* the former refutation witness of F-C20-3 (`log /a a.log` + `log / b.log`, GET /a/x) now gets
-   its line in both logs; a panic is logged when errors turns it into a response *)
-Example C20_one_line_per_log_partial_nonvacuous :
-  snd (site_serve {| w_nethttp := true; w_head := false |} false [(404%Z, 14); (500%Z, 26)] true false
-         [ {| d_scope := bs "/a"; d_except := [bs "/a/x"] |}; {| d_scope := bs "/a"; d_except := [bs "/a/b"] |} ]
-         (bs "/a/x") [OPanic] 0%Z)
-  = [(1%nat, 500%Z, 26)] /\
+(* the former refutation witnesses: `log /a a.log` + `log / b.log`, GET /a/x (F-C20-3) gets its
+   line in both logs; `log / a.log { except /x }` + `log / b.log`, GET /x (F-C20-4) gets its line
+   in b.log; a panic without an errors directive (F-C20-1) is answered with 500 and logged as
+   such; with errors, the errors directive writes the 500 and it is logged likewise *)
+Example C20_one_line_per_log_witnesses :
   snd (site_serve {| w_nethttp := true; w_head := false |} false [(404%Z, 14)] true false
          [ {| d_scope := bs "/a"; d_except := [] |}; {| d_scope := bs "/"; d_except := [] |} ]
          (bs "/a/x") [] 404%Z)
-  = [(0%nat, 404%Z, 14); (1%nat, 404%Z, 14)].
-Proof. vm_compute. split; reflexivity. Qed.
-
-(* The unrestricted statement is still false of the code: without an errors directive a
-   panicking handler is answered (500 by the server's own recover) but not logged *)
-Theorem C20_panic_logged_refuted :
-  exists ds path ops ret,
-  site_serve {| w_nethttp := true; w_head := false |} false [(500%Z, 26)] false false ds path ops ret
-  = (500%Z, 26, []) /\ counts_ok false ds 0 path [] = false.
-Proof.
-  exists [ {| d_scope := bs "/"; d_except := [] |} ], (bs "/x"), [OPanic], 0%Z.
-  vm_compute. split; reflexivity.
-Qed.
-Print Assumptions C20_panic_logged_refuted.
+  = [(0%nat, 404%Z, 14); (1%nat, 404%Z, 14)] /\
+  snd (site_serve {| w_nethttp := true; w_head := false |} false [(404%Z, 14)] true false
+         [ {| d_scope := bs "/"; d_except := [bs "/x"] |}; {| d_scope := bs "/"; d_except := [] |} ]
+         (bs "/x") [] 404%Z)
+  = [(1%nat, 404%Z, 14)] /\
+  site_serve {| w_nethttp := true; w_head := false |} false [(500%Z, 26)] false false
+         [ {| d_scope := bs "/"; d_except := [] |} ] (bs "/x") [OPanic] 0%Z
+  = (500%Z, 26, [(0%nat, 500%Z, 26)]) /\
+  snd (site_serve {| w_nethttp := true; w_head := false |} false [(404%Z, 14); (500%Z, 26)] true false
+         [ {| d_scope := bs "/a"; d_except := [bs "/a/x"] |}; {| d_scope := bs "/a"; d_except := [bs "/a/b"] |} ]
+         (bs "/a/x") [OPanic] 0%Z)
+  = [(1%nat, 500%Z, 26)].
+Proof. vm_compute. repeat split; reflexivity. Qed.
 
 (* Status and size are exact, for EVERY request method and EVERY handler script —
    contract-breaking ones included: a second WriteHeader, a WriteHeader after the first Write, a
